@@ -1240,6 +1240,10 @@ func (sab *storageAllocationBase) replaceBlobber(blobberID string, sc *StorageSm
 				if e != nil {
 					return fmt.Errorf("failed to move challenge pool back to write pool: %v", e)
 				}
+
+				if e = cp.save(sc.ID, sab, balances); e != nil {
+					return fmt.Errorf("failed to save challenge pool: %v", e)
+				}
 			}
 
 			if d.Stats.UsedSize > 0 {
